@@ -64,7 +64,7 @@ func (p *Pool) register() {
 			break
 		}
 	}
-	p.info = simhook.RegisterPool(site, p.purge, p.length)
+	p.info = simhook.RegisterPool(site, p.purge, p.length, p.dup)
 }
 
 func shortFunc(s string) string {
@@ -84,6 +84,21 @@ func (p *Pool) purge() {
 
 //go:norace
 func (p *Pool) length() int { return len(p.items) }
+
+// dup reports whether the same pointer is resident twice (a double Put).
+//
+//go:norace
+func (p *Pool) dup() bool {
+	for i := range p.items {
+		pi := (*[2]unsafe.Pointer)(unsafe.Pointer(&p.items[i]))[1]
+		for j := i + 1; j < len(p.items); j++ {
+			if pj := (*[2]unsafe.Pointer)(unsafe.Pointer(&p.items[j]))[1]; pi == pj && pi != nil {
+				return true
+			}
+		}
+	}
+	return false
+}
 
 // Info returns the registry record (registering the pool if needed).
 //
